@@ -51,6 +51,19 @@ def gen(tier, seed, chunk, nch):
     for _ in range((16000 if tier == "quick" else 300000) // nch):
         n = rng.randint(3, 12)
         cases.append({"calls": [rng.choice(BIG) for _ in range(n)], "big": True})
+    # 3-6 distinct options of random kinds and groups, each given a letter from a small set: every
+    # pattern of clashing and non-clashing letters over every declaration / name order
+    names = [b"a", b"ab", b"b", b"ba", b"c", b"zz", b"m"]
+    for _ in range((8000 if tier == "quick" else 120000) // nch):
+        k = rng.randint(3, 6)
+        calls = []
+        for nm in rng.sample(names, k):
+            calls.append(("d", rng.choice("omt"), rng.choice([-1, -1, 0, 1]), nm))
+            if rng.random() < 0.85:
+                calls.append(("s", rng.choice([b"x", b"y", b"z", b"x"])))
+        if rng.random() < 0.2:
+            calls.insert(rng.randrange(len(calls)), ("move",))
+        cases.append({"calls": calls, "letters": True})
     return cases
 
 
